@@ -1368,10 +1368,17 @@ package ucfg
 //@ modifies tree(opts)
 //@ ensures opts.activeFields == old(opts.activeFields)
 
+// reifyValue builds the value for a target that holds nothing yet. C06/C03: what it builds for a map or slice
+// target has the type of the target, pointers included - the caller stores it with reflect's Set / SetMapIndex,
+// which accept nothing else. (Frame and scope clause are assumed, as before: a reflect-driven dispatcher.)
 //@ func reifyValue :: opts, t, val -> r, err
-//@ trusted
+//@ props C06 C07
+//@ sweep
+//@ uses chase
+//@ requires t != nil
 //@ modifies tree(opts.opts)
-//@ ensures opts.opts.activeFields == old(opts.opts.activeFields)
+//@ ensures [scope !unproved] opts.opts.activeFields == old(opts.opts.activeFields)
+//@ ensures [container_typed @C06] err == nil && !convTo(old(tConfig), chasedT(t)) && (rtKind(chasedT(t)) == 21 || rtKind(chasedT(t)) == 23) ==> rvType(r) == t
 
 // reifyMergeValue: the scope clause is the summary reifyMap relies on (assumed: the function is a reflect-driven
 // dispatcher); what is proved here is that every callee precondition holds at its call site - in particular
@@ -1792,6 +1799,7 @@ package ucfg
 //@ requires 0 <= start && start + len(arr) < 9223372036854775807
 //@ modifies *
 //@ ensures [kept_elements_validated] err == nil ==> forall j int :: 0 <= j && j < rvLen(to) && !(start <= j && j < start + len(arr)) ==> recValid(rvIndex(to, j))
+//@ ensures [same_handle @C06] err == nil ==> r == to
 //@ loop 1 invariant 0 <= idx
 //@ loop 1 invariant forall j int :: 0 <= j && j < idx && !(start <= j && j < start + len(arr)) ==> recValid(rvIndex(to, j))
 
@@ -2144,8 +2152,9 @@ package ucfg
 // - whenever the target held a slice - already contains the old entries at the position the policy prescribes
 // (replace: none kept; append: old first; prepend: old after the new ones; merge by index: old at 0, length = max).
 //@ func reifySliceMerge :: opts, old, tTo, val -> r, err
-//@ props C13 C07
+//@ props C13 C07 C06
 //@ sweep
+//@ ensures [typed @C06] err == nil ==> rvType(r) == tTo
 //@ requires rtKind(tTo) == 23
 //@ requires opts.opts != nil
 //@ requires !rvValid(old) || nilableKind(rvKind(old))
@@ -2155,6 +2164,12 @@ package ucfg
 //@ at-call reifyDoArray requires hasOld(entry(old)) && policyIs(entry(opts), cfgArrAppend) && len(arr) + rvLen(entry(old)) < 9223372036854775807 ==> start == rvLen(entry(old)) && rvLen(to) == len(arr) + rvLen(entry(old)) && holdsCopy(rvSlice(to, 0, rvLen(to)), entry(old))
 //@ at-call reifyDoArray requires hasOld(entry(old)) && policyIs(entry(opts), cfgArrPrepend) && len(arr) + rvLen(entry(old)) < 9223372036854775807 ==> start == 0 && rvLen(to) == len(arr) + rvLen(entry(old)) && holdsCopy(rvSlice(to, len(arr), rvLen(to)), entry(old))
 //@ at-call reifyDoArray requires hasOld(entry(old)) && !policyIs(entry(opts), cfgReplaceValue) && !policyIs(entry(opts), cfgArrAppend) && !policyIs(entry(opts), cfgArrPrepend) ==> start == 0 && (len(arr) >= rvLen(entry(old)) ==> rvLen(to) == len(arr)) && (len(arr) < rvLen(entry(old)) ==> rvLen(to) == rvLen(entry(old))) && holdsCopy(rvSlice(to, 0, rvLen(to)), entry(old))
+
+//@ func reifySlice :: opts, tTo, val -> r, err
+//@ props C06 C07
+//@ sweep
+//@ modifies *
+//@ ensures [typed @C06] err == nil ==> rvType(r) == tTo
 
 //@ func castArr :: opts, v -> arr, err
 //@ props C07
